@@ -489,12 +489,32 @@ def _r5(ctx, rm, pkg):
     ctx.floor("R5", "(format, code) pairs", n, 40)
 
 
+def _grain_builder(rm, tval):
+    """(name of the rate_* builder Grain.rateexpr hands reaction type `tval` to, None) -- decided by EVALUATING the grain's dispatch for
+    that value, however it is spelled; (None, "refused") when every arm reachable for the value raises; (None, <what is not understood>)
+    otherwise."""
+    arms = arms_for(rm, "Grain", rm.variants("Grain"), "reaction_type", tval)
+    # (the grain's own `if rate is NotImplemented: raise` is about what the builder returns, not about which builder is taken)
+    about_result = lambda c: any(x == ("global", "NotImplemented") for x in walk(c))
+    live = [(a, extra) for a, extra in arms if not any(about_result(c) and p_ for c, p_ in extra)]
+    und = sorted({show(c)[:70] for _, extra in live for c, _p in extra if not _about_law(c) and not about_result(c)})
+    kinds = {a.kind for a, _ in live}
+    names = {a.raw[2] for a, _ in live if a.kind == "delegate" and a.raw is not None and a.raw[0] == "meth" and a.raw[1] == SELF}
+    if kinds == {"delegate"} and len(names) == 1:
+        return next(iter(names)), None
+    if live and kinds == {"raise"} and not und:
+        return None, "refused"
+    return None, (f"condition(s) {und[:3]} are not understood" if und else f"the dispatch yields {sorted(kinds)} / builders {sorted(names)}")
+
+
 def _grain_sibling(ctx, rm, regs, F, tval, key, where):
     """Grain-delegated type: the symbols the grain templates read from the reaction must resolve identically."""
-    gm = grain_methods(rm)
-    mname = gm.get(tval)
-    if mname is None:
+    mname, why = _grain_builder(rm, tval)
+    if mname is None and why == "refused":
         ctx.bad("R5", key, where, f"type {tval} is delegated to the grain but Grain.rateexpr does not dispatch on it")
+        return
+    if mname is None:
+        ctx.unrec("R5", key, where, f"cannot decide which rate builder Grain.rateexpr hands type {tval} to: {why}")
         return
     fsym = {s.name: s.text for s in regs[F]}
     nsym = {s.name: s.text for s in regs["Reaction"]}
